@@ -31,8 +31,10 @@ Lemma post_rd (Q : N -> Prop) buf limit i :
   (forall b, nth_error buf (N.to_nat i) = Some b -> Q b) ->
   post Q (rd buf limit i).
 Proof.
-  unfold holds, rd, lenN. intros Hh Hi HQ.
+  unfold holds, rd. intros Hh Hi HQ.
   destruct (N.ltb_spec i limit); [|lia].
+  destruct (N.ltb_spec i (lenN buf)); [|lia].
+  unfold lenN in *.
   destruct (nth_error buf (N.to_nat i)) eqn:E.
   - cbn. auto.
   - apply nth_error_None in E. lia.
